@@ -491,5 +491,97 @@ theorem getMove_prov [DecidableEq M] (hP : Prov g o Q N D) (hord : OrderOK o) (c
       rintro x ⟨hx1, hx2⟩
       exact ⟨hx1, Or.inr hx2⟩
 
+/-! ### `AnalyzeAll` -/
+
+/-- what is known of a line `AnalyzeAll` lists: `Q`-moves, an accepted head, and — for the lines it adds to the
+PV of `Analyze` — the whole line replays (each was searched with the window `(v-1, v+1)` and kept for the value `v`) -/
+def LineOK (g : Game P M) (Q : M → Prop) (p : P) (pv : List M) (l : List M) : Prop :=
+  (∀ y ∈ l, Q y) ∧ (∃ y ys, l = y :: ys ∧ Accepts g p y) ∧ (l = pv ∨ Replays g p l)
+
+theorem aaBody_q [DecidableEq M] (hP : Prov g o Q N D) (cfg : SOpts) (p : P) (hN : N p) (depth : Int) (pv0 : M)
+    (rest : List M) (hrest : ∀ x ∈ rest, Q x) (v : Int) (pv : List M) :
+    BodyQ g p (aaBody g cfg o depth pv0 rest v) Q
+      (fun (out : List (List M)) s => EngOK g Q D s ∧ ∀ l ∈ out, LineOK g Q p pv l) (fun _ _ => False)
+      (fun (_ : Unit) _ => False) := by
+  intro m c out s hap hm hI
+  unfold aaBody
+  apply Sat.bind
+  intro sm _
+  apply Sat.bind
+  refine (pvSearch_q hP cfg 1 c 0 (depth - 1) rest (-v - 1) (-v + 1) _ (hP.closed p m c hN hap) hrest
+    (hI.1.of_eq (s1 := { s with stackM := sm }) rfl rfl rfl)).mono ?_
+  rintro r ⟨hr1, hr2⟩
+  split
+  · exact Sat.pure ⟨hr1, hI.2⟩
+  · rename_i hv
+    split
+    · exact Sat.pure ⟨hr1, hI.2⟩
+    · refine Sat.pure ⟨hr1, ?_⟩
+      intro l hl
+      rcases List.mem_append.mp hl with h | h
+      · exact hI.2 l h
+      · simp only [List.mem_singleton] at h
+        subst h
+        have hv' : -r.1.2 = v := by simpa using hv
+        refine ⟨?_, ⟨m, _, rfl, c, hap⟩, Or.inr ⟨c, hap, ?_⟩⟩
+        · intro y hy
+          rcases List.mem_cons.mp hy with h | h
+          · subst h; exact hm
+          · cases hms : r.1.1 with
+            | none => rw [hms] at h; cases h
+            | some l' => rw [hms] at h; exact (hr2 l' hms).q y h
+        · cases hms : r.1.1 with
+          | none => exact trivial
+          | some l' => exact (hr2 l' hms).inside (by omega) (by omega)
+
+theorem analyzeAllFrom_q [DecidableEq M] (hP : Prov g o Q N D) (cfg : Cfg) (p : P) (hN : N p)
+    (pv : List M) (hq : ∀ x ∈ pv, Q x) (hacc : ∀ m rest, pv = m :: rest → Accepts g p m)
+    (v : Int) (st : Stats) (s : Eng M) (hs : EngOK g Q D s) :
+    Sat (analyzeAllFrom g cfg o p pv v st s) (fun x => EngOK g Q D x.2 ∧ ∀ l ∈ x.1.1, LineOK g Q p pv l) := by
+  unfold analyzeAllFrom
+  cases pv with
+  | nil => exact Sat.ok ⟨hs, fun l hl => by cases hl⟩
+  | cons pv0 rest =>
+    dsimp only
+    have hline : LineOK g Q p (pv0 :: rest) (pv0 :: rest) := ⟨hq, ⟨pv0, rest, rfl, hacc pv0 rest rfl⟩, Or.inl rfl⟩
+    have hI0 : EngOK g Q D s ∧ ∀ l ∈ [pv0 :: rest], LineOK g Q p (pv0 :: rest) l := by
+      refine ⟨hs, fun l hl => ?_⟩
+      simp only [List.mem_singleton] at hl
+      subst hl; exact hline
+    have hit := iterate_q (aaBody_q hP cfg.opts p hN st.depth pv0 rest (fun x hx => hq x (List.mem_cons_of_mem _ hx)) v
+        (pv0 :: rest)) cfg.opts o (rootMG st.depth (pv0 :: rest))
+      (fun e he => by cases he) (fun x r h => by cases h; exact hq _ List.mem_cons_self) (fun _ _ h => h.1.resp)
+      (hP.gen p hN) hP.ord (fun _ _ _ h => ⟨h.1.of_eq rfl rfl rfl, h.2⟩) [pv0 :: rest] s hI0
+    cases hi : iterate g cfg.opts o p (rootMG st.depth (pv0 :: rest)) (aaBody g cfg.opts o st.depth pv0 rest v)
+        [pv0 :: rest] s with
+    | error e => exact Sat.error
+    | ok y =>
+      obtain ⟨ctl, s2⟩ := y
+      have hpost := hit _ hi
+      cases ctl with
+      | next a => exact Sat.ok hpost
+      | brk a => exact absurd hpost id
+      | ret r => exact absurd hpost id
+
+/-- **`AnalyzeAll`**: under the hypotheses of `analyze_head`, every line listed starts with an accepted move, consists
+of `Q`-moves, and every line other than the PV of `Analyze` replays in full -/
+theorem analyzeAll_lines [DecidableEq M] (hP : Prov g o Q N D) (hord : OrderOK o) (cfg : Cfg) (p : P) (hN : N p)
+    (hgen : GenOK g p) (hmove : ∃ m ∈ g.allMoves p, Accepts g p m)
+    (hev : ∀ m c, g.apply p m = .ok c → g.eval c ≤ Facts.maxEval)
+    (s : Eng M) (hs : EngOK g Q D s) (hD : s.hasTable = true → D p) :
+    Sat (analyzeAll g cfg o p s) (fun x => EngOK g Q D x.2 ∧
+      ∀ l ∈ x.1.1, (∀ y ∈ l, Q y) ∧ ∃ y ys, l = y :: ys ∧ Accepts g p y) := by
+  unfold analyzeAll
+  have ha := analyze_head hP hord cfg p hN hgen hmove hev s hs hD
+  cases hr : analyze g cfg o p s with
+  | error e => exact Sat.error
+  | ok x =>
+    obtain ⟨⟨pv, v, st⟩, s1⟩ := x
+    obtain ⟨h1, h2, h3⟩ := ha _ hr
+    dsimp only at h1 h2 h3 ⊢
+    refine (analyzeAllFrom_q hP cfg p hN pv h2 h3 v st s1 h1).mono ?_
+    rintro x ⟨hx1, hx2⟩
+    exact ⟨hx1, fun l hl => ⟨(hx2 l hl).1, (hx2 l hl).2.1⟩⟩
+
 end analyze
 end Search
